@@ -20,6 +20,14 @@ Check(e) ==
              ELSE IF e.hdr # HeaderView(M, e.inp) THEN "header-view-differs-from-input"
              ELSE IF Len(e.mand) < HdrLen(M) \/ e.hdr # Flat(e.mand, HdrLen(M)) THEN "header-view-differs-from-body"
              ELSE "ok"
+    [] e.op = "DecX" ->      \* a receiving message that is not fresh (other family decoded before / SecurityHeader view pre-filled)
+        LET c == Route(e.entry, e.inp) IN
+        IF e.panic THEN "panic"
+        ELSE IF c = {} THEN (IF e.ok THEN "unroutable-input-accepted" ELSE "ok")
+        ELSE LET M == Msgs[CHOOSE i \in c : TRUE] IN
+             IF ~e.ok THEN (IF DecodeEntry(e.entry, e.bm, e.inp).ok THEN "routed-type-rejected" ELSE "ok")
+             ELSE IF \A k \in 1..Len(e.bodies) : e.bodies[k] # M.name THEN "wrong-body-for-type"
+             ELSE "ok"
     [] e.op = "EncDisp" ->
         LET c == EncRoute(e.fam, e.mt) IN
         IF e.fam = "none" \/ c = {} THEN (IF e.panic THEN "panic" ELSE IF e.ok THEN "encode-without-route-succeeds" ELSE "ok")
